@@ -72,10 +72,14 @@ SlotFree == Lim = 0 \/ sem < Lim
 Take == sem' = IF Lim = 0 THEN sem ELSE sem + 1
 Give == sem' = IF Lim = 0 THEN sem ELSE sem - 1
 
+\* pinned code: the hash of a when_changed task covers the rendered command text but not its
+\* variables; V is invisible to it when it only reaches env or deferred (lazily rendered) commands
+HashBlind(t) == T(t).vuse = "env" \/ \A e \in Range(ExpCmds(t)) : e.k # "sh"
+
 KeyOf(t, v) ==
   CASE T(t).run = "always" -> <<>>
     [] T(t).run = "once"   -> <<"o", t>>
-    [] OTHER               -> <<"h", t, IF T(t).vuse = "env" /\ "VarsBlindHash" \in KF THEN "" ELSE v>>
+    [] OTHER               -> <<"h", t, IF HashBlind(t) /\ "VarsBlindHash" \in KF THEN "" ELSE v>>
 
 \* registration of defer: entries is invisible; Adv skips them, pushing them on the stack
 RECURSIVE Adv(_, _, _)
